@@ -142,6 +142,28 @@ class Repo:
     def load_external(self, path: Path, modname: str) -> SourceFile:
         return self._load(path, str(path), None, modname=modname)
 
+    def _unique_defs(self) -> Set[str]:
+        """Names that `def` introduces exactly once in the analysed trees (hdl21/ and the PDK packages): a call
+        `x.<name>(..)` of such a name can only mean that one definition, whatever x is (canon uses this to see
+        through helpers that were made methods of another class of the file)."""
+        if getattr(self, "_udefs", None) is None:
+            import re as _re
+
+            cnt: Dict[str, int] = {}
+            for sub in ("hdl21", "pdks"):
+                base = self.root / sub
+                if not base.exists():
+                    continue
+                for p in base.rglob("*.py"):
+                    try:
+                        txt = p.read_text(encoding="utf-8")
+                    except OSError:
+                        continue
+                    for m in _re.finditer(r"^\s*(?:async\s+)?def\s+(\w+)", txt, _re.M):
+                        cnt[m.group(1)] = cnt.get(m.group(1), 0) + 1
+            self._udefs = {k for k, v in cnt.items() if v == 1}
+        return self._udefs
+
     def _load(self, path: Path, rel: str, pkg_root: Optional[str], modname=None) -> SourceFile:
         try:
             text = path.read_text(encoding="utf-8")
@@ -154,7 +176,7 @@ class Repo:
             from . import alpha, canon
 
             ref = alpha.reference().get(rel)
-            st = canon.canonicalise(tree, set(k for k in ref if not k.startswith("__")) if ref else None, set(ref.get("__consts__", [])) if ref else None)
+            st = canon.canonicalise(tree, set(k for k in ref if not k.startswith("__")) if ref else None, set(ref.get("__consts__", [])) if ref else None, unique_defs=self._unique_defs())
             self.canon_stats = getattr(self, "canon_stats", {})
             for k, v in st.items():
                 self.canon_stats[k] = self.canon_stats.get(k, 0) + v
